@@ -197,7 +197,7 @@ func (t *tracer) TransitionEnd(tx *am.Transition) {
 		if listed && cfg.CalledExclude {
 			match = false
 			break
-		} else if !listed && !cfg.CalledExclude {
+		} else if listed && !cfg.CalledExclude {
 			match = true
 			break
 		}
@@ -209,7 +209,7 @@ func (t *tracer) TransitionEnd(tx *am.Transition) {
 		if listed && cfg.ChangedExclude {
 			match = false
 			break
-		} else if !listed && !cfg.ChangedExclude {
+		} else if listed && !cfg.ChangedExclude {
 			match = true
 			break
 		}
